@@ -4,7 +4,7 @@ import ElvisVerif.Lemmas.TcpRelTwin
 # `close()` with ANY amount of unsent text queued (quiet peer): the closer keeps segmentizing in FIN-WAIT-1
 
 The closed system `c` runs alongside its close-free twin `s` (`Twin`): same TCBs except that A's is in FIN-WAIT-1.
-* `phase_twin`: while the window does not admit all of A's unsent text, one exchange phase does to `c` exactly what it
+* `phase_twin`: while the window does not let through all of A's unsent text, one exchange phase does to `c` exactly what it
   does to `s` (the closer cuts what the window admits, `Tcb.segments_twin_more`; B's ACKs of the previous window are
   processed as in ESTABLISHED, `Tcb.ackList_twin`); `s` stays `Good` and steady, so the argument repeats.
 * `phase_final`: once the window admits all the remaining text, two phases: the text and the FIN behind it, B's ACKs;
